@@ -34,6 +34,7 @@ inductive Out
   | fallback                                 -- `_process_disconnected_events()` (a poll over a connection)
   | notRouted                                -- no pairing for this identifier
   | noDelivery                               -- ignored or fall-back, depending on a tag-prefix coincidence; nothing delivered
+  | silent                                   -- accepted (the state number advances) for an instance id the cached database does not know: nobody is called
   deriving DecidableEq, Repr
 
 /-- candidate order of `_async_notification`: next, current (⇒ stale), then +2 … +99 -/
@@ -51,6 +52,12 @@ def step (s : St) (a : Adv) : St × Out :=
         else if inner ≠ g then (s, .ignored)                 -- GSN mismatch
         else ({ s with stateNum := g }, .delivered iid value)
       else (s, .fallback)
+
+/-- what listeners observe: an accepted notification for an instance id that is not in the cached accessory
+    database (`unknown`) advances the state number like any other but calls nobody -/
+def observe (unknown : List Nat) : Out → Out
+  | .delivered iid value => if iid ∈ unknown then .silent else .delivered iid value
+  | o => o
 
 def run : St → List Adv → List Out
   | _, [] => []
